@@ -31,7 +31,7 @@ type Schema struct {
 
 type Prop struct {
 	Name  string
-	Flags string // r required, o optional, f filterable, s sortable, q searchable, p primary key
+	Flags string // r required, o optional, f filterable, s sortable, q searchable, p primary key, d / D default filter (a declared option / not an option)
 	T     *Type
 }
 
@@ -353,8 +353,35 @@ func DecodeSpec(op string) (*Spec, error) {
 // ---- rendering as j5s source text
 
 type rend struct {
-	b   strings.Builder
-	ind int
+	b    strings.Builder
+	ind  int
+	spec *Spec
+}
+
+// enumOptions of the enum a property's type refers to (declared or inline)
+func (s *Spec) enumOptions(t *Type) []string {
+	switch {
+	case t.K == "IE":
+		return t.Opts
+	case t.K == "R" && t.Sub == "e":
+		if sc := s.schema(t.Name); sc != nil {
+			return sc.Opts
+		}
+	}
+	return nil
+}
+
+// defaultFilter: the default filter value the flags 'd' (a declared option) / 'D' (no option of the
+// enum) put on an enum property; "" when there is none
+func (s *Spec) defaultFilter(p *Prop) string {
+	opts := s.enumOptions(p.T)
+	switch {
+	case p.Has('D'):
+		return "BOGUS"
+	case p.Has('d') && len(opts) > 0:
+		return opts[0]
+	}
+	return ""
 }
 
 func (r *rend) line(f string, a ...any) {
@@ -420,6 +447,9 @@ func (r *rend) prop(word string, p *Prop) {
 		l := l
 		body = append(body, func() { r.line("%s", l) })
 	}
+	if df := r.spec.defaultFilter(p); df != "" {
+		body = append(body, func() { r.line("listRules.filtering.defaultFilters = [%q]", df) })
+	}
 	if word == "key" && p.Has('p') {
 		body = append(body, func() { r.line("primary = true") })
 	}
@@ -467,13 +497,13 @@ func (s *Spec) Render() map[string][]byte {
 	first := s.Schemas
 	if s.Extra > 0 && s.Extra <= len(s.Schemas) {
 		first = s.Schemas[:len(s.Schemas)-s.Extra]
-		x := &rend{}
+		x := &rend{spec: s}
 		x.line("package %s", s.Pkg)
 		x.line("")
 		x.schemas(s.Schemas[len(s.Schemas)-s.Extra:])
 		out[dir+"/extra.j5s"] = []byte(x.b.String())
 	}
-	r := &rend{}
+	r := &rend{spec: s}
 	r.line("package %s", s.Pkg)
 	r.line("")
 	r.schemas(first)
